@@ -254,6 +254,38 @@ prop(
     min_counters={"quick": {"selects_checked": 50000, "content_pairs": 64}, "thorough": {"content_pairs": 256}},
 )
 
+prop(
+    "C02",
+    title="Independently encoded MSI databases are read exactly",
+    technique="translation round trip through two independent implementations at run time: Obs(open(encode(db))) vs the independent decoder's view, then decode(save(apply(ops))) vs the reference model",
+    rule="format-level generator: 0-6 tables x 1-32 columns of any type mix, unique keys, values valid for the schema, x option vectors (3-byte references, pool holes, "
+         "duplicate entries, over-counted refcounts, 70 KB pool string, 66 KB cell string, code-page id 0 / any of the 26 pages, 1-byte integer size field, no _Validation, "
+         "unsorted rows, 32 columns, property sets with shuffled value/table order, gaps, padding, all 7 value types); one directed scenario family per option + random "
+         "combinations; then 2-6 API changes on one table / streams / summary; distinct = (option set, table count, row-count class); non-trivial = the file opened and both legs ran",
+    level_text="Leg 1 compares everything the public API reports (type, code page, tables, column definitions, rows in file order, summary, streams) with the expectation "
+               "computed from the harness decoder alone; leg 2 decodes the file saved after API changes and requires untouched tables cell-for-cell identical and the touched "
+               "table, streams and summary equal to the model.",
+    level_note="'Well-formed' is what the encoder emits (live referenced entries, unique keys); encoder and decoder are cross-checked on every case (decode(encode(db)) == db).",
+    assumptions=[TRUST_CFB, TRUST_CODEC, TRUST_ENC],
+    design_ref="3/C02",
+    min_counters={"quick": {"databases_opened": 1500, "option:long-refs": 100, "option:no-validation": 100, "option:unsorted-rows": 100, "saved_images_decoded": 1500},
+                  "thorough": {"databases_opened": 50000}},
+)
+
+prop(
+    "C16",
+    title="Opening and reading a package never modifies it",
+    technique="counting instrumented medium: write-call counter + byte comparison over read-only sessions closed in all three ways",
+    rule="library-written packages (random histories) and independently encoded databases (all encoder oddities) x random sequences of 1-40 read-only calls (table/column "
+         "inspection, selects, failing selects and joins, summary getters, streams, has_stream, read_stream incl. missing names, has_digital_signature) x the three close modes; "
+         "distinct = (origin, close mode, sequence of call kinds); non-trivial = the session opened and ran",
+    level_text="The medium's call log is the oracle: writes == 0 and bytes identical to the input, for every session and close mode.",
+    level_note="Sessions that panic are C09's subject and are skipped here (counted).",
+    assumptions=["the instrumented medium faithfully counts every write the library issues"],
+    design_ref="3/C16",
+    min_counters={"quick": {"sessions_Flush": 500, "sessions_IntoInner": 500, "sessions_Drop": 500}, "thorough": {"sessions_Flush": 20000}},
+)
+
 ALL_IDS = ["C%02d" % i for i in range(1, 21)]
 
 
